@@ -1,62 +1,92 @@
 # executed by tools/manifest.py: claim(pid, category, text, note, design_ref) / na(pid, reason)
-BOUNDED = (" The remaining clauses are explored only by the bounded stand-in (run-time evaluation of the contract clauses on the real code over an "
+BOUNDED = (" Clauses outside the verifier's reach are explored only by the bounded stand-in (run-time evaluation of contract clauses on the real code over an "
            "enumerated small scope; labelled bounded in evidence.coverage.bounded and never counted among the discharged obligations).")
-ASSUME = "Python ints mathematical, numpy ints do not overflow, floats are reals (no rounding); numpy/pandas primitives enter through the assumed models named in evidence.coverage.trusted_base; "
+ASSUME = ("Python ints mathematical, numpy ints do not overflow, floats are reals (no rounding); numpy/pandas/stdlib primitives enter through the assumed models "
+          "named in evidence.coverage.trusted_base; the VC generator itself (pyvc) is trusted, guarded by reachability covers, seeded-change runs and harmless-edit runs; ")
+P = "proof"
 
-claim("C06", "proof",
-      "to_sub_topology (the compaction / parent remap / new-to-old mapping that every extraction and pruning operation ends in) is proved against its "
-      "contract for all tables of any length: loop invariants + postconditions discharged by z3 from the real source." + BOUNDED,
-      ASSUME + "get_subtree / to_subtree / cut_tree / CutByType / CutByFurcationOrder / CutShortTipBranch / propagate_removal are bounded only "
+claim("C01", P,
+      "to_swc's row formatter get_v (id/pid shifted by any offset >= 0, root pid stays -1, type verbatim, floats with exactly the '.4f' spec), the to_swc generator (one newline-terminated '#'-line per comment, "
+      "exact header, one row per node in column order; n unbounded) and SWCLike.to_swc (source header / comments / offset / extra columns passed through, nothing else added) are proved; "
+      "reset_index_ (re-basing) is re-verified from C18; id arithmetic round-trip lemmas." + BOUNDED,
+      ASSUME + "float.__format__ / int(str(k)) and the regex tokenisation on read are not modelled: the whole write->read composition is bounded only.", "DESIGN.md §3 C01, §9")
+claim("C02", P,
+      "parse_swc is proved over an abstract file (symbolic number of lines, regex/isspace/int/float uninterpreted): all columns always equally long = number of row lines, fields are the conversions of the groups, comments in order minus the "
+      "writer's header, a line that is neither row, comment nor blank raises, decode errors become ValueError, normal return implies every line was consumed; FileReader.__exit__ never suppresses; read_swc's repair/sort/reset dispatch; "
+      "Tree.from_swc re-raises every read failure as ValueError." + BOUNDED,
+      ASSUME + "regex-language facts (which texts the row pattern accepts) are NOT proved: the pattern text is pinned and the line grammar is explored by the bounded stand-in; encoding detection bounded only.", "DESIGN.md §3 C02, §9")
+claim("C03", "other",
+      "No discharged obligation is attributed to C03 itself yet: frame ('input untouched': frozen inputs) and ownership ('fresh result') obligations are proved per operation under the properties that own the operations "
+      "(C05 sort_tree/_sort_tree, C06 propagate_removal/to_sub_topology, C07 redirect_tree/cat_tree, C12 AffineTransform/TranslateOrigin, C16 smoother/resampler); "
+      "arbitrary pipelines are decided by the bounded stand-in (pipelines of length <= 3 over small trees with snapshot / np.shares_memory / well-formedness oracles after every step).",
+      ASSUME + "closure of the single-step frame/ownership contracts under sequencing is argued in DESIGN.md, not mechanised.", "DESIGN.md §3 C03, §9")
+claim("C04", P,
+      "_traverse_dfs is proved for trees of any size and shape, any start node and arbitrary callbacks (three loops with invariants, ghost observation state): enter exactly once per subtree node and never outside, after the parent and with the parent's "
+      "value; leave exactly once after all children with exactly their values in a list allocated for that call; returns the start node's value; swc_utils.traverse / Tree.traverse / Tree.Node.traverse pass nodes and values through unchanged; "
+      "the traversal path is free of recursion (call-graph obligation)." + BOUNDED,
+      ASSUME + "tree induction (entered nodes cover the subtree) is an assumed lemma instance; termination of the stack loop is not proved (10^5-node chains run in the bounded stand-in).", "DESIGN.md §3 C04, §9")
+claim("C05", P,
+      "sort_nodes_impl is proved for tables of any length with arbitrary distinct ids in any row order (ghost slot permutation): the returned index array is a bijection, ids 0..n-1, root 0, every parent smaller than its child, "
+      "parent relation preserved; sort_nodes_ / _sort_tree / sort_tree permute EVERY column (extras included) by that bijection; sort_tree leaves its input untouched and returns fresh storage." + BOUNDED,
+      ASSUME + "two assumed induction lemmas (tree induction; count of a singleton mask); idempotence up to sibling order and read_swc(sort_nodes=True) are bounded only.", "DESIGN.md §3 C05, §9")
+claim("C06", P,
+      "to_sub_topology (compaction, parent remap, new-to-old mapping; any length) and propagate_removal (marks exactly the removal closure in place, survivors keep ids, parents copied; via the traverse client rule) are proved." + BOUNDED,
+      ASSUME + "the traverse client rule is a derived rule over C04's contract (argued, not mechanised); get_subtree / to_subtree / cut_tree / CutByType / CutByFurcationOrder / CutShortTipBranch are bounded only "
       "(all trees <= 6 nodes x all start nodes / removal sets / predicates).", "DESIGN.md §3 C06, §9")
-claim("C09", "proof",
-      "Heap-level contracts on Node.__getitem__/__setitem__ and the seven attribute accessors (read at call time, write-through and nothing else), "
-      "Tree.__getitem__ (negative indices, IndexError exactly out of range), Tree.Node.parent, Path.get_ndata (fresh in-order gather), "
-      "Branch.get_compartments (consecutive pairs, branch lengths 2-4 symbolic ids) and DictSWC.copy (equal content, disjoint storage) are discharged for trees of any size." + BOUNDED,
-      ASSUME + "copy.deepcopy assumed to return an equal fresh graph; the history clause follows from the single-step frame/ownership contracts (argued in DESIGN.md, not mechanised); slices, children(), detach() of Path/Branch/Compartment are bounded only.",
-      "DESIGN.md §3 C09, §9")
-claim("C12", "proof",
-      "Matrix builders (translate3d, scale3d, rotate3d_x/y/z, rotate3d = Rodrigues), the constructors of Translate/Scale/Rotate*, AffineTransform.__call__ "
-      "(every node moved by p -> M(p-c)+c with c the origin or the first root, centre fixed, pid/type/r/id untouched, input unmodified, output fresh) and TranslateOrigin.transform are proved over the reals "
-      "with (cos,sin) abstracted to a point of the unit circle." + BOUNDED,
-      ASSUME + "float32 rounding is out of reach; inverse-transform and distance-preservation are lemmas over the builders' postconditions.", "DESIGN.md §3 C12, §9")
-claim("C13", "proof",
-      "Every closed form (sphere, cap, frustum, two-sphere lens and union, sphere-frustum concentric intersection) is proved equal to its solid-of-revolution integral spec on every path of the real functions, over the reals with pi abstract; "
-      "find_sphere_line_intersection / project_point_on_line / find_unit_vector_on_plane against their geometric contracts." + BOUNDED,
-      ASSUME + "the eps tolerance band is collapsed (eps=0) for the exact-equality proof; np.isclose treated over the reals; the integral specs are trusted definitions cross-checked by quadrature in the bounded part.",
-      "DESIGN.md §3 C13, §9")
-claim("C19", "proof",
-      "_get_idx, ChainTrees.__init__/__len__/__getitem__ (binary search invariant, for any iterable incl. one-shot), LazyLoadingTrees.__init__/load/__getitem__/__len__ "
-      "(load-once ghost counter, no read at construction), Population.__init__/__len__/__getitem__ are proved for all sizes." + BOUNDED,
-      ASSUME + "Tree.from_swc is an assumed contract (returns the tree of that file); directory walking (os.walk), Populations.from_swc matching and Population.map (process pool) are bounded only.",
-      "DESIGN.md §3 C19, §9")
-
-claim("C18", "proof",
-      "DisjointSetUnion (__init__, find_parent with termination measure, is_same_set, union_sets: whole partition view = generated equivalence, rank unconstrained) against an abstract "
-      "representative map; reset_index_ and mark_roots_as_somas_ (first root kept, single root, every edge and attribute kept) on a pandas model; is_bifurcate "
-      "(loop invariants over the children map, result <-> no node has more than two children, roots exempt on request) are proved for tables of any size." + BOUNDED,
-      ASSUME + "has_cyclic, is_sorted, get_dsu/is_single_root, link_roots_to_nearest_ and read_swc's repair dispatch are bounded only (every table <= 4 nodes, union scripts, forests x id bases x repair modes).",
-      "DESIGN.md §3 C18, §9")
-
-BONLY = ("No function of this property is under a discharged contract yet: the check is the bounded stand-in only (run-time evaluation of the contract clauses named in evidence on the REAL "
-         "functions over the enumerated scope stated in evidence.coverage.bounded.rule, with independent oracles); it is labelled bounded and nothing is counted as proved. ")
-claim("C02", "other",
-      "FileReader.__exit__ is proved never to suppress an exception (the `with` rule makes parse_swc's ValueError/UnicodeDecodeError propagate); the line grammar, malformed-line rejection at every position, "
-      "decoding failures and option combinations are decided by the bounded stand-in on the real reader against an independent reference reader.",
-      ASSUME + "parse_swc's regex loop is not under contract (string theory): bounded only.", "DESIGN.md §3 C02, §9")
-for _p, _what in (
-    ("C01", "whole Tree.to_swc -> Tree.from_swc round trips over all trees <= 5 nodes x offsets x source kinds x comment lists x float corner values"),
-    ("C03", "pipelines of the tree-to-tree operations over small trees with snapshot / np.shares_memory / well-formedness oracles after every step"),
-    ("C04", "recording callbacks on all trees <= 7 nodes and all start nodes, chains of 10^5 nodes under the default recursion limit"),
-    ("C05", "all numberings of all trees <= 6 nodes incl. non-contiguous ids, root anywhere, extra columns, idempotence"),
-    ("C07", "all pairs of small trees x junction nodes x translate modes; all new roots"),
-    ("C08", "all sorted parent tables <= 8 nodes: branch partition, paths, tips, furcations, branch tree"),
-    ("C10", "all trees <= 6 nodes on an integer lattice against an independent implementation of the definitions; populations"),
-    ("C11", "random rigid motions, scalings and renumberings of small and random trees, all features compared"),
-    ("C14", "collinear chains / two-arm roots on a parameter grid against numeric quadrature of the union; levels 1-2 on arbitrary trees"),
-    ("C15", "documents generated from the ASC grammar to depth 4 against a reference converter; every truncation, single-point corruptions, 5000-point branch"),
-    ("C16", "resampler/smoother on all trees <= 6 nodes x spacings x root types and hand-made degenerate branches against a polyline oracle"),
-    ("C17", "lattice and random point clouds against Kruskal (MST length), per-step greedy-choice replay, furcation caps"),
-    ("C20", "TIFF/NRRD/NPY round trips over shapes x dtypes x patterns; rasterisation of small trees against an independent round-cone SDF"),
-):
-    TECHNIQUE[_p] = TECH_B
-    claim(_p, "other", BONLY + "Scope: " + _what + ".", "everything is bounded (small scope, real code); external libraries (numpy, pandas, tifffile, pynrrd, sdflit) trusted.", "DESIGN.md §3 " + _p + ", §9")
+claim("C07", P,
+      "redirect_tree is proved for trees of any size whose root may sit anywhere (path-walk invariants with depth variant): requested node becomes the unique root, path edges reversed, other parents kept, undirected edge set unchanged, "
+      "types of old and new root exchanged, all other attributes kept, input untouched, result fresh; _sort_tree permutes every column; cat_tree for fixed small sizes (14 variants, all attributes symbolic): shift by ns, junction link, "
+      "merge iff Euclidean distance < EPS, translation vector, no other edge, inputs untouched." + BOUNDED,
+      ASSUME + "sort_nodes_impl is used through an assumed contract here (proved in C05); cat_tree with symbolic sizes is bounded only.", "DESIGN.md §3 C07, §9")
+claim("C08", P,
+      "Node.is_furcation / is_tip (child-count definitions, ids need not be positions), Tree.get_tips (exactly the childless nodes, once each), Tree.Node.children, and the callbacks behind get_furcations / get_paths / get_branches "
+      "(collect_furcations, assign_path with fresh lists, collect_path, collect_branches for 0-3 children, the post-traversal closing of the root's pending chain) are proved." + BOUNDED,
+      ASSUME + "the fold over the whole tree (edge partition by branches) and BranchTree.from_tree are bounded only (every sorted parent table <= 8 nodes); Node.branch only on fixed shapes.", "DESIGN.md §3 C08, §9")
+claim("C09", P,
+      "Heap-level contracts on Node.__getitem__/__setitem__ and the seven attribute accessors (read at call time, write-through and nothing else), Tree.__getitem__ (negative indices, IndexError exactly out of range), "
+      "Tree.Node.parent, Path.get_ndata (fresh in-order gather), Branch.get_compartments (consecutive pairs; branch lengths 2-4) and DictSWC.copy (equal content, disjoint storage) for trees of any size." + BOUNDED,
+      ASSUME + "copy.deepcopy assumed to return an equal fresh graph; the history clause follows from the single-step frame/ownership contracts (argued, not mechanised); slices and detach() are bounded only.", "DESIGN.md §3 C09, §9")
+claim("C10", P,
+      "30 feature carriers proved equal to spec functions that read coordinates only through squared distances: Path.length/straight_line_distance/tortuosity, Node.distance, radial distance, Tree.length (<= 5 nodes), Sholl.__init__/intersect/get/get_rs "
+      "(straddle definition, exactly `steps` radii), padding1d, population zero-padding, L-Measure partition asymmetry / fragmentation / contraction / path distance / branch order / angle, count features, Features.get dispatch." + BOUNDED,
+      ASSUME + "paths/trees of fixed small size (1-5 nodes) with fully symbolic coordinates where a symbolic-length object list would be needed; branch-based features and the traversal-backed L-Measure counts are bounded only.", "DESIGN.md §3 C10, §9")
+claim("C11", P,
+      "Two-run property decided as lemmas over contracts: (i) every C10 spec reads coordinates only through squared distances (syntactic obligation), (ii) the C12-verified rotation/translation builders preserve squared distances, "
+      "(iii) scaling multiplies distances by s, leaves ratios/counts/Sholl tests/angle cosines unchanged and the C13 closed-form volumes are homogeneous of degree 3; the C10, C12, C13 carriers are re-verified here (DEPENDS)." + BOUNDED,
+      ASSUME + "renumbering invariance (re-indexing of sums) needs induction and is bounded only; float32 rounding out of reach.", "DESIGN.md §3 C11, §9")
+claim("C12", P,
+      "Matrix builders (translate3d, scale3d, rotate3d_x/y/z, rotate3d = Rodrigues), the constructors of Translate/Scale/Rotate*, AffineTransform.__call__ (every node moved by p -> M(p-c)+c, centre fixed, pid/type/r/id untouched, "
+      "input unmodified, output fresh) and TranslateOrigin.transform are proved over the reals with (cos,sin) a point of the unit circle." + BOUNDED,
+      ASSUME + "float32 rounding out of reach; inverse and distance-preservation are lemmas over the builders' postconditions.", "DESIGN.md §3 C12, §9")
+claim("C13", P,
+      "Every closed form (sphere, cap, frustum, two-sphere lens and union, sphere-frustum concentric intersection) is proved equal to its solid-of-revolution integral spec on every path, over the reals with pi abstract; "
+      "find_sphere_line_intersection / project_point_on_line / find_unit_vector_on_plane against geometric contracts." + BOUNDED,
+      ASSUME + "eps tolerance band collapsed (eps=0); np.isclose over the reals; integral specs are trusted definitions cross-checked by quadrature in the bounded part.", "DESIGN.md §3 C13, §9")
+claim("C14", P,
+      "get_volume (level names, range assert, dispatch) and the per-node closure `leave` (accuracy symbolic 1..9, 0-3 children): volume grows by sphere + [>=2] frusta - [>=3] the two sphere-frustum intersections per child, no sphere-sphere term; "
+      "21 union lemmas (lens inside the frustum, piecewise max profile = closed forms) tie the increment to the measure of the union of one compartment; C13 carriers re-verified." + BOUNDED,
+      ASSUME + "the taper half of VolSphereFrustumConeIntersection._get_volume and the Monte-Carlo objects are assumed contracts (general radii at levels >= 3 are relative to them); summation over the traversal is bounded only.", "DESIGN.md §3 C14, §9")
+claim("C15", P,
+      "The recursive-descent parser is proved over an abstract token stream with a ghost bracket depth: _parse_node accepts exactly FLOATx4 ')', _parse_split returns only after the ')' matching its '(', _parse_subtree stops at the '|'/')' of its own level, "
+      "_parse returns normally only at depth 0 after the final ')' (premature end raises), parse converts every failure to ValueError; walk_ast (iterative, no recursion) allocates ids in document order with the enclosing NODE as parent and the TREE label as type." + BOUNDED,
+      ASSUME + "the exact parent of every point for unbounded documents, the lexer on symbolic text and acceptance of all well-formed documents are bounded only (grammar-generated documents vs a reference converter, all truncations).", "DESIGN.md §3 C15, §9")
+claim("C16", P,
+      "BranchIsometricResampler/BranchLinearResampler.resample (input 2-4 points, everything else symbolic): m = ceil(L/d)+1 samples, end points kept, equal arc steps <= d, samples on the polyline, radius linear in arc length, zero-length branch handled; "
+      "BranchConvSmoother frame (only interior x,y,z written on a detached copy; unbounded); BranchTreeAssembler slice arithmetic (no interior sample dropped; fixed shapes)." + BOUNDED,
+      ASSUME + "np.linspace/np.interp/np.ceil/scipy.signal.convolve enter as assumed models; whole-tree resampling, pairing and 'total length never grows' are bounded only.", "DESIGN.md §3 C16, §9")
+claim("C17", P,
+      "PointsToCuntzMST.__call__ is proved for any number of points (Prim loop invariants over a symbolic n x n mask): spanning tree rooted at 0 with depth witness, every attachment greedy w.r.t. dis[i,j] + bf*acc[i] over exactly the admissible set, "
+      "branching cap respected, path lengths, an unmasked entry always exists, the transform object is not modified; the two constructors." + BOUNDED,
+      ASSUME + "masked argmin is an assumed contract; distances abstract (symmetric, non-negative); Tree construction and sort_tree at the end are cut (assumed); MST optimality itself is bounded only (vs Kruskal).", "DESIGN.md §3 C17, §9")
+claim("C18", P,
+      "DisjointSetUnion (__init__, find_parent with termination measure, is_same_set, union_sets: whole partition view = generated equivalence) against an abstract representative map; reset_index_ and mark_roots_as_somas_ "
+      "(first root kept, single root, every edge and attribute kept); is_bifurcate (result <-> no node has more than two children, roots exempt on request) for tables of any size." + BOUNDED,
+      ASSUME + "has_cyclic, is_sorted, get_dsu/is_single_root, link_roots_to_nearest_ are bounded only (every table <= 4 nodes, union scripts, forests x id bases x repair modes).", "DESIGN.md §3 C18, §9")
+claim("C19", P,
+      "_get_idx, ChainTrees.__init__/__len__/__getitem__ (binary search invariant, any iterable incl. one-shot), LazyLoadingTrees (load-once ghost counter, no read at construction), Population.__init__/__len__/__getitem__ for all sizes." + BOUNDED,
+      ASSUME + "Tree.from_swc is an assumed contract here; directory walking, Populations.from_swc matching and Population.map are bounded only.", "DESIGN.md §3 C19, §9")
+claim("C20", P,
+      "save_tiff (shape (Z,X,Y,C), dtype factor for every float/unsigned pair in double precision, axes string, options), NDArrayImageStack.__init__ (three rescaling branches, class or dtype instance), TiffImageStack.__init__ "
+      "(all 48 axes permutations return (X,Y,Z,C)), ToImageStack.transform/_get_samplers (bounding box covers every sphere, half-voxel offset, slice spacing and count) and the scene closure (one object per edge, containing sphere for nested ends) are proved." + BOUNDED,
+      ASSUME + "tifffile, pynrrd and the sdflit sampler are compiled third-party code: assumed through recording models; the file round trip and voxel-level rasterisation are bounded only.", "DESIGN.md §3 C20, §9")
+TECHNIQUE["C03"] = TECH_B
